@@ -89,6 +89,12 @@ func (s *Server) handleConnection(conn net.Conn) {
 		}
 	}
 
+	// clients (Response.Decode, pam_whawty) only accept parts of up to MaxRequestLength
+	// bytes, so clip the message to keep the reply ("OK"/"NO" + " " + message) decodable.
+	if len(resp.Message) > MaxRequestLength-3 {
+		resp.Message = resp.Message[:MaxRequestLength-3]
+	}
+
 	resp.Encode(conn) //nolint:errcheck
 }
 
